@@ -8,6 +8,7 @@ import (
 	"sync/atomic"
 	"testing"
 	"testing/synctest"
+	"time"
 
 	"github.com/aperturerobotics/util/ioproxy"
 	"pgregory.net/rapid"
@@ -131,6 +132,80 @@ func checkProxyTail(t *testing.T, v *ev.Verdict, c ProxyCase, fail func(sig, f s
 	v.Class("last-bytes-delivered-with-eof")
 }
 
+// checkProxyBothEOF: both sides are finite streams that end on their own. The callback
+// holds its first caller until the second one has arrived; by then ("called if either of the
+// streams close") both sides must have been closed.
+func checkProxyBothEOF(t *testing.T, v *ev.Verdict, c ProxyCase, fail func(sig, f string, a ...any)) {
+	var bubbleErr any
+	func() {
+		defer func() { bubbleErr = recover() }()
+		synctest.Test(t, func(t *testing.T) {
+			mk := func(in [][]byte) *tailReader {
+				var chunks [][]byte
+				for _, ch := range in {
+					chunks = append(chunks, append([]byte(nil), ch...))
+				}
+				return &tailReader{chunks: chunks}
+			}
+			a, b := mk(c.AtoB), mk(c.BtoA)
+			var cbs atomic.Int32
+			second := make(chan struct{})
+			var closedAtSecond atomic.Int32
+			closedAtSecond.Store(-1)
+			ioproxy.ProxyStreams(a, b, func() {
+				if cbs.Add(1) == 1 {
+					select {
+					case <-second:
+					case <-time.After(time.Minute): // (virtual) the other direction never finished
+					}
+					return
+				}
+				n := int32(0)
+				if a.closes.Load() > 0 {
+					n++
+				}
+				if b.closes.Load() > 0 {
+					n++
+				}
+				closedAtSecond.Store(n)
+				close(second)
+			})
+			time.Sleep(2 * time.Minute)
+			synctest.Wait()
+			if n := cbs.Load(); n != 2 {
+				fail("ioproxy:callback-count", "both sides ended on their own; callback ran %d times, want exactly 2", n)
+			} else if closedAtSecond.Load() != 2 {
+				fail("ioproxy:callback-before-close", "when the callback was called the second time only %d of the two sides had been closed", closedAtSecond.Load())
+			}
+			if a.closes.Load() == 0 || b.closes.Load() == 0 {
+				fail("ioproxy:not-closed", "both sides ended on their own: closes A=%d B=%d, want both closed", a.closes.Load(), b.closes.Load())
+			}
+			wantA, wantB := 0, 0
+			for _, ch := range c.BtoA {
+				wantA += len(ch)
+			}
+			for _, ch := range c.AtoB {
+				wantB += len(ch)
+			}
+			// (a side stops accepting data once it is closed; what arrived before is a prefix)
+			a.mu.Lock()
+			gotA := a.wrote
+			a.mu.Unlock()
+			b.mu.Lock()
+			gotB := b.wrote
+			b.mu.Unlock()
+			if gotA > wantA || gotB > wantB {
+				fail("ioproxy:bytes-invented", "A received %d of %d bytes, B received %d of %d", gotA, wantA, gotB, wantB)
+			}
+		})
+	}()
+	if bubbleErr != nil && len(v.Viol) == 0 {
+		fail("ioproxy:leak", "goroutines left behind: %v", bubbleErr)
+	}
+	v.SetNT(P)
+	v.Class("both-sides-end-on-their-own")
+}
+
 // countConn counts Close calls on a net.Conn.
 type countConn struct {
 	net.Conn
@@ -148,6 +223,10 @@ func checkProxy(t *testing.T, v *ev.Verdict, c ProxyCase) {
 		mu.Lock()
 		v.Add(P, sig, f, a...)
 		mu.Unlock()
+	}
+	if c.TailEOF && c.Closer == "B" {
+		checkProxyBothEOF(t, v, c, fail)
+		return
 	}
 	if c.TailEOF {
 		checkProxyTail(t, v, c, fail)
